@@ -1322,7 +1322,7 @@ def monitor(case, tmp):
         ks = sorted(k for k in before if before[k] != after.get(k))
         raw.append(("source-modified", ",".join(k.rstrip("0123456789") for k in ks), "caller-passed data changed during the history: %s" % ks))
     raw += held_data_check(case, tmp, tags)
-    info = {"ref_len": len(ref), "nfull": nfull, "outs": outs, "ref": ref, "refp": refp, "srcpost": srcpost}
+    info = {"ref_len": len(ref), "nfull": nfull, "outs": outs, "ref": ref, "refp": refp, "srcpost": srcpost, "snap_after": after}
     return raw, tags, info
 
 
@@ -1500,30 +1500,142 @@ def elem_map(a, b):
     return [[x, y] for x, y in m.items()]
 
 
-def describe(case, tmp, nd, srcpost=None):
-    """run a fresh pipeline stage by stage through its public pipes and describe it for the model.
-    -> (request-without-variant, interner, staged final ids) ; None when the pipeline cannot be staged"""
+def enc_val(v):
+    """a context value for Model/C09's `Val` (exact rational or code points); None when it has no such form"""
+    if isinstance(v, bool):
+        return None
+    if isinstance(v, int):
+        return {"n": [v, 1]}
+    if isinstance(v, float):
+        if v != v or v in (float("inf"), float("-inf")):
+            return None
+        n, d = v.as_integer_ratio()
+        return {"n": [n, d]}
+    if isinstance(v, str):
+        return {"s": [ord(c) for c in str(v)]}
+    return None
+
+
+def enc_ctx(c):
+    """-> (json for Model/C09's `Ctx`, ok)"""
+    from coba import primitives
+    if c is None:
+        return None, True
+    if isinstance(c, (int, float)) and not isinstance(c, bool):
+        v = enc_val(c)
+        return v, v is not None
+    if isinstance(c, str):
+        return None, False                 # a string context: len() counts characters, not modelled here
+    if isinstance(c, primitives.Sparse) or isinstance(c, dict):
+        kv = [[enc_val(k), enc_val(v)] for k, v in c.items()]
+        return {"sp": kv}, all(a is not None and b is not None for a, b in kv)
+    if isinstance(c, primitives.Dense):
+        vs = [enc_val(v) for v in c]
+        return {"d": vs}, all(v is not None for v in vs)
+    return None, False
+
+
+def enc_seed(x):
+    if isinstance(x, bool) or x is None:
+        return None
+    if isinstance(x, int):
+        return {"int": x}
+    if isinstance(x, float):
+        if x.is_integer():
+            return {"int": int(x)}
+        return {"bytes": list(str(x).encode("utf-8"))}
+    return {"bytes": list(str(x).encode("utf-8"))}
+
+
+def enc_range(v):
+    if v is None:
+        return [None, None]
+    if isinstance(v, (list, tuple)):
+        return [v[0], v[1]]
+    return [v, v]
+
+
+def attrs_of(objs, ids, attrs):
+    """the fields the selecting / ordering filters look at, for every interned interaction; False when a field has no model form"""
+    from coba.primitives import is_batch
+    ok = True
+    for it, i in zip(objs, ids):
+        if i in attrs:
+            ok = ok and attrs[i].get("_ok", True)
+            continue
+        if any(is_batch(v) for v in it.values()):
+            attrs[i] = {"id": i, "logged": bool("action" in it and "reward" in it), "hasCtx": "context" in it, "ctx": None, "nact": 0, "_ok": False}
+            ok = False
+            continue
+        cj, cok = enc_ctx(it.get("context")) if "context" in it else (None, True)
+        acts = it.get("actions")
+        a = {"id": i, "logged": bool("action" in it and "reward" in it), "hasCtx": "context" in it, "ctx": cj,
+             "nact": len(acts) if isinstance(acts, (list, tuple)) else 0, "_ok": bool(cok)}
+        attrs[i] = a
+        ok = ok and cok
+    return ok
+
+
+def real_filter_node(f, name, cur, ids, attrs, par):
+    """the filter as a REAL function of the model (Model/C09 through `Filt`), or None when it has to stay a table"""
+    p = f.params
+    if name == "Take":
+        cnt = p.get("take")
+        return {"k": "filt", "op": "take", "count": cnt, "strict": bool(getattr(f, "_strict", False)), "par": par}
+    if name == "Slice":
+        return {"k": "filt", "op": "slice", "start": p.get("slice_start"), "stop": p.get("slice_stop"), "step": p.get("slice_step", 1), "par": par}
+    if name == "Shuffle":
+        sd = p.get("shuffle_seed")
+        if sd is None:
+            return None
+        attrs_of(cur, ids, attrs)
+        return {"k": "filt", "op": "shuffle", "seed": enc_seed(sd), "lseed": enc_seed(sd * 3.21), "par": par}
+    if name == "Riffle":
+        sd = enc_seed(p.get("riffle_seed"))
+        if sd is None:
+            return None
+        return {"k": "filt", "op": "riffle", "spacing": p.get("riffle_spacing"), "seed": sd, "par": par}
+    if name == "Reservoir":
+        sd = enc_seed(p.get("reservoir_seed"))
+        if sd is None:
+            return None
+        return {"k": "filt", "op": "reservoir", "count": p.get("reservoir_count"), "strict": bool(getattr(f, "_strict", False)), "seed": sd, "par": par}
+    if name == "Sort":
+        keys = p.get("sort_keys")
+        keys = [] if keys == "*" else list(keys)
+        kv = [enc_val(k) for k in keys]
+        if any(k is None for k in kv) or not attrs_of(cur, ids, attrs):
+            return None
+        return {"k": "filt", "op": "sort", "keys": kv, "par": par}
+    if name == "Where":
+        if not attrs_of(cur, ids, attrs):
+            return None
+        return {"k": "filt", "op": "where", "nint": enc_range(p.get("where_n_interactions")), "nact": enc_range(p.get("where_n_actions")),
+                "nfet": enc_range(p.get("where_n_features")), "par": par}
+    return None
+
+
+REAL_FILTERS = {"Take", "Slice", "Shuffle", "Riffle", "Reservoir", "Sort", "Where"}
+
+
+def describe_member(case, env, msrc, I, attrs, fin_table, fin_elem, srcpost=None):
+    """stage one member's pipeline through its public pipes -> (object for the model, staged final ids, asis_ok, real-filter count)"""
     import coba.pipes as cp
     import coba.environments.filters as ef
-    from coba.random import CobaRandom
-    envs, watch = build(case, tmp)
-    env = envs[member_of(case)]
     pipes = list(env)
-    I = Interner()
     source = pipes[0]
     pre = dict(source.params)
     cur = list(source.read())
     post = srcpost if srcpost is not None else dict(source.params)    # source params after a full read of the PIPELINE
     ids = I.items([cint(x) for x in cur])
-    once_asis = member_src(case)["kind"] == "sup_xy" and not any(st["m"] == "save" for st in case.get("chain", []))
+    once_asis = msrc["kind"] == "sup_xy" and not any(st["m"] == "save" for st in case.get("chain", []))
     src = {"once": False, "once_asis": once_asis, "items": ids, "parPre": I.ptoks(0, pre), "parPost": I.ptoks(0, post)}
     nodes = []
-    fin_table = []
-    fin_elem = {}
     asis_ok = True          # every stage behind an as-is stateful stage has a declared laziness
     seen_stateful = once_asis
     has_protected_later = [any(isinstance(q, cp.Cache) and q.protected for q in pipes[i + 1:]) for i in range(len(pipes))]
     nfin = 0
+    nreal = 0
     for i, f in enumerate(pipes[1:], 1):
         name = type(f).__name__
         if isinstance(f, cp.Cache):
@@ -1541,41 +1653,29 @@ def describe(case, tmp, nd, srcpost=None):
             nfin += 1
             cur, ids = out, oids
             continue
-        if isinstance(f, ef.Shuffle):
-            seed = f.params.get("shuffle_seed")
-            first = cur[0] if cur else None
-            logged = bool(first is not None and "action" in first and "reward" in first)
-            out = list(f.filter(cur))
-            oids = I.items([cint(x) for x in out])
-            perms, pars = [], []
-            x = seed
-            for d in range(nd):
-                perms.append(CobaRandom(x).shuffle(list(range(len(cur)))))
-                pars.append(I.ptoks(i, {"shuffle_seed": x}))
-                x = x * 3.21 if x is not None else x
-            nodes.append({"k": "shuffle", "v": "fixed", "perms": perms, "par": pars, "logged": logged})
-            if logged:
-                seen_stateful = True
-            cur, ids = out, oids
-            continue
+        par = I.ptoks(i, dict(f.params))
+        node = None
+        if name in REAL_FILTERS and isinstance(f, getattr(ef, name, ())):
+            try:
+                node = real_filter_node(f, name, cur, ids, attrs, par)
+            except Exception:
+                node = None
         out = list(f.filter(cur))
         oids = I.items([cint(x) for x in out])
+        if node is not None:
+            nreal += 1
+            node["cls"] = name
+            nodes.append(node)
+            cur, ids = out, oids
+            continue
         dem = "lazy" if name in LAZY else "eager" if name in EAGER else "calltime" if name in CALLTIME else "opaque"
-        dn = 0
-        if name == "Take":
-            cnt = f.params.get("take")
-            strict = bool(getattr(f, "_strict", False))
-            dem, dn = ("lazy", 0) if cnt is None else (("prefixcall" if strict else "prefix"), int(cnt))
-        elif name == "Slice":
-            stop = f.params.get("slice_stop")
-            dem, dn = ("lazy", 0) if stop is None else ("prefix", int(stop))
         if dem == "opaque" and seen_stateful:
             asis_ok = False
-        node = {"k": "pure", "table": [[ids, oids]], "dem": dem if dem != "opaque" else "lazy", "n": dn, "par": I.ptoks(i, dict(f.params)), "cls": name}
-        if name in ELEMENTWISE:
-            em = elem_map(ids, oids)
-            if em:
-                node["elem"] = em
+        em = elem_map(ids, oids) if name in ELEMENTWISE else None
+        if em is not None:
+            node = {"k": "filt", "op": "map", "elem": em, "par": par, "cls": name}      # a function of the interaction
+        else:
+            node = {"k": "pure", "table": [[ids, oids]], "dem": dem if dem != "opaque" else "lazy", "n": 0, "par": par, "cls": name}
         nodes.append(node)
         cur, ids = out, oids
     # Finalize applied to its own output (objects written by save() are finalized again when they are loaded)
@@ -1593,49 +1693,99 @@ def describe(case, tmp, nd, srcpost=None):
     chain = case.get("chain", [])
     own = nfin == 1 and isinstance(pipes[-1], ef.BatchSafe) and not any(
         st["m"] in ("materialize", "save") or (st["m"] == "filter" and st["f"]["cls"] == "BatchSafe" and st["f"].get("inner", {}).get("cls") == "Finalize") for st in chain)
-    req = {"fin": {"table": fin_table, "elem": [[a, b] for a, b in fin_elem.items()], "dem": "lazy"}, "src": src, "nodes": nodes, "ownFin": bool(own)}
-    return req, I, ids, asis_ok
+    return {"src": src, "nodes": nodes, "ownFin": bool(own)}, ids, asis_ok, nreal
 
 
-def model_hist(case):
-    out = []
-    for h in case["hist"]:
-        if h["op"] == "sib":
+def describe(case, tmp, nd, srcpost=None):
+    """run a fresh pipeline (every member of a fresh collection) stage by stage through its public pipes and describe it
+    for the model. -> (request-without-variant, interner, staged final ids of the main member, asis_ok, info)"""
+    envs, watch = build(case, tmp)
+    mem = member_of(case)
+    I = Interner()
+    attrs, fin_table, fin_elem = {}, [], {}
+    objs, finals, nreal = [], [], 0
+    asis_ok = True
+    members = range(len(envs)) if case.get("sibs") else [mem]
+    srcs = [case["src"]] + list(case.get("sibs") or [])
+    for k in members:
+        o, ids, ok, nr = describe_member(case, envs[k], srcs[k] if k < len(srcs) else case["src"], I, attrs, fin_table, fin_elem,
+                                         srcpost if k == mem else None)
+        objs.append(o)
+        finals.append(ids)
+        nreal += nr
+        if k == mem:
+            asis_ok = ok
+    alist = []
+    for a in attrs.values():
+        if "logged" not in a:
             continue
-        m = {"op": h["op"], "on": h["on"] if h.get("on", -1) >= 0 else 0}
-        if h["op"] == "partial":
-            m["k"] = h["k"]
-        out.append(m)
-    return out
+        b = {k: v for k, v in a.items() if k != "_ok"}
+        if not a.get("_ok", True):
+            b["ctx"] = None          # no model form: filters that look at the context stay tables for such inputs
+        alist.append(b)
+    before = snapshot(watch)
+    keys = sorted(before)
+    caller = [[I.tok("caller", k, before[k])] for k in keys]
+    req = {"fin": {"table": fin_table, "elem": [[a, b] for a, b in fin_elem.items()], "dem": "lazy"}, "attrs": alist, "objs": objs, "caller": caller}
+    main = finals[list(members).index(mem)]
+    return req, I, main, asis_ok, {"nreal": nreal, "members": len(objs), "caller_keys": keys}
+
+
+def model_ops(case, nmembers):
+    """the history as operations of the model.  A pool object of the harness is a collection of `nmembers` model objects
+    (object j, member k -> index j*nmembers+k); a shortcut applied to the collection is applied to every member.
+    -> (ops, for every history step the index of the model output that answers it, or a list of indices for derive steps)"""
+    mem = member_of(case) if nmembers > 1 else 0
+    ops, where = [], []
+    for h in case["hist"]:
+        j = h["on"] if h.get("on", -1) >= 0 else 0
+        op = h["op"]
+        if op == "sib":
+            where.append(len(ops))
+            ops.append({"op": "full", "on": j * nmembers + (h["i"] if nmembers > 1 else 0)})
+        elif op in DERIVE:
+            where.append(list(range(len(ops), len(ops) + nmembers)))
+            for k in range(nmembers):
+                ops.append({"op": op, "on": j * nmembers + k})
+        else:
+            m = {"op": op, "on": j * nmembers + mem}
+            if op == "partial":
+                m["k"] = h["k"]
+            where.append(len(ops))
+            ops.append(m)
+    return ops, where
 
 
 def asis_request(req, case):
     """the same pipeline with the stateful stages as the unrepaired code has them"""
     r = json.loads(json.dumps(req))
     r["variant"] = "asis"
-    r["src"]["once"] = bool(r["src"].get("once_asis"))
-    for n in r["nodes"]:
-        if n["k"] == "shuffle":
-            n["v"] = "asis"
+    for o in r["objs"]:
+        o["src"]["once"] = bool(o["src"].get("once_asis"))
+        for n in o["nodes"]:
+            if n["k"] == "shuffle":
+                n["v"] = "asis"
     return r
 
 
-def compare_model(case, outs, model, I):
+def compare_model(case, outs, model, where, I):
     """-> list of (step, what) where the implementation and the model disagree"""
     diffs = []
-    keep = [(i, h, o) for i, (h, o) in enumerate(zip(case["hist"], outs)) if h["op"] != "sib"]
-    for (i, h, o), m in zip(keep, model):
+    for i, (h, o) in enumerate(zip(case["hist"], outs)):
         op = h["op"]
+        w = where[i]
+        ms = [model[x] for x in w] if isinstance(w, list) else [model[w]]
+        m = ms[0]
         if "skip" in o:
-            if m != "skip":
+            if op != "sib" and m != "skip":
                 diffs.append((i, "%s: implementation had no such object, model %s" % (op, json.dumps(m)[:80])))
             continue
         if "err" in o:
-            if m != "err":
+            if not any(x == "err" for x in ms):
                 diffs.append((i, "%s raised %s in the implementation, model %s" % (op, o["err"], json.dumps(m)[:80])))
             continue
-        if op in ("full", "partial"):
-            got = I.items(o["full"] if op == "full" else o["partial"])
+        if op in ("full", "partial", "sib"):
+            got = I.items(o["full"] if op == "full" else o["partial"] if op == "partial" else o["sib"])
             if not isinstance(m, dict) or m.get("items") != got:
                 diffs.append((i, "%s read: implementation %s, model %s" % (op, got[:12], json.dumps(m)[:80])))
         elif op == "params":
@@ -1645,8 +1795,8 @@ def compare_model(case, outs, model, I):
             if exp != o["params"]:
                 diffs.append((i, "params: implementation %s, model %s" % (cjson(o["params"])[:120], cjson(exp)[:120])))
         else:
-            if m != "derived":
-                diffs.append((i, "%s succeeded in the implementation, model %s" % (op, json.dumps(m)[:80])))
+            if any(x != "derived" for x in ms):
+                diffs.append((i, "%s succeeded in the implementation, model %s" % (op, json.dumps(ms)[:80])))
     return diffs
 
 
@@ -1663,10 +1813,15 @@ class C04(Property):
             "Cache followed by another filter, materialize, sparse->dense lookup, impute on missing values - are forced into ~45% of the chains); history of 3-8 "
             "full / partial(k) / params / materialize / cache / chunk / pickle / save steps on the pool of objects derived from it; "
             "non-trivial = the fresh read is non-empty, the history has >= 2 observations (full reads / params after a read) and at least one "
-            "state-changing step (partial read or derive step) before the last observation; distinct by canonical JSON of the case")
+            "state-changing step (partial read or derive step) before the last observation; distinct by canonical JSON of the case; 25% of the cases are "
+            "collections of 2-3 different environments (shortcuts applied to the collection, sibling reads interleaved, every member is an object of the model's pool); "
+            "3% are direct GroundedFeedback memo cases (1-110 instances x 2-4 arguments, 2-3 reads) compared word by word with the memo model")
     trusted_base = [
-        "pure filter stages enter the model as their input->output table on the reference input (taken from the code); the model predicts the stateful skeleton "
-        "(Cache buffers/iterators, Shuffle seed, one-shot sources, EmptyCheck, params tokens) on top of them",
+        "filters that select / order interactions (Take, Slice, Shuffle, Riffle, Reservoir, Sort, Where) are REAL functions in the driver (Model/C09, seeds through "
+        "Model/C05; Reservoir's float formulas are evaluated on IEEE doubles in the driver); item-wise rewriting filters enter as their item->item map, the remaining "
+        "stateless filters as their input->output table on the reference input (both taken from the code, stage by stage through the public pipes)",
+        "the fields those filters look at (logged?, context as exact rationals / code points, number of actions) are extracted from the real interactions by the harness",
+        "GroundedFeedback words are predicted by the memo model from CobaRandom(seed).choice (Model/C05); a GroundedFeedback is built directly from the public nested class",
         "pickle / zip I/O produce observationally equal, unshared copies",
         "CPython drops (closes) an abandoned generator as soon as its last reference disappears",
     ]
@@ -1674,6 +1829,11 @@ class C04(Property):
                    "interleaved reads of two pipelines that share an unfinished Cache are treated like concurrent reads (outside the property)",
                    "time-seeded filters (seed None) excluded"]
     partial_theorems = {
+        "collection_members_independent": "needs one pipe object per member (objects of the pool own their nodes); shared_cache_counterexample shows a shared Cache breaks it; "
+                                          "one stateful filter object handed to Environments.filter() by the caller is outside (the generator never does that for collections)",
+        "caller_objects_unchanged": "hypothesis: no source rewrites the heap cell it was built from (argEdit = none); inplace_argument_edit_counterexample shows it is necessary",
+        "memo_stable_across_reads": "for an unbounded memo (lru_cache(maxsize=None)); memo_bounded_counterexample shows a capacity breaks it",
+        "noise_fresh_rng_stable": "for the generator created per filter() call; noise_kept_rng_counterexample shows a generator kept in the instance breaks it",
         "reread": "hypothesis finIdem (Finalize leaves finalized output unchanged) is forced by F7: BatchSafe re-batches with the size of the first batch, "
                   "so save()/from_save() (which finalizes again) regroups batches when the first batch is a short one; finalize_twice_counterexample shows it is necessary; "
                   "the driver reports hyp=false on such cases and the model then predicts the regrouped read exactly",
@@ -1682,7 +1842,18 @@ class C04(Property):
     }
 
     # ---- generation
+    def gen_memo(self, rng, big):
+        ni = rng.randint(70, 110) if big else rng.randint(1, 6)
+        nact = rng.randint(3, 4) if big else rng.randint(2, 4)
+        base = rng.randint(0, 50)
+        insts = [{"seed": base + i, "argmax": rng.randint(0, nact - 1), "normal": rng.chance(0.6)} for i in range(ni)]
+        q = [[i, a] for i in range(ni) for a in range(nact)]
+        reads = [q, q] if rng.chance(0.5) else [q, rng.shuffle(q)[:max(1, len(q) // 2)], q]
+        return {"memo": {"ngood": rng.randint(1, 3), "nbad": rng.randint(1, 4), "insts": insts, "reads": reads}}
+
     def generate(self, rng, tier):
+        if rng.chance(0.03):
+            return self.gen_memo(rng, rng.chance(0.4))
         src, sh = g_source(rng)
         chain, sh2 = g_chain(rng, sh)
         case = {"src": src, "chain": chain}
@@ -1702,6 +1873,9 @@ class C04(Property):
                         if st["m"] == "shuffle":
                             st.pop("k", None)
                             st["a"] = [rng.randint(0, 20)]
+                # one stateful filter OBJECT handed to `.filter()` would be shared by all members (the caller's doing, not coba's):
+                # the shortcuts create one object per member, `.filter(obj)` cannot
+                chain[:] = [st for st in chain if not (st["m"] == "filter" and st["f"]["cls"] in ("Cache", "EmptyCheck", "Finalize", "BatchSafe"))]
                 case["sibs"] = sibs
                 nmembers = 1 + len(sibs)
                 member = rng.randint(0, nmembers - 1)
@@ -1743,6 +1917,10 @@ class C04(Property):
 
     def corpus(self):
         cs = [{"witness": "shuffle_abandon_counterexample"}]
+        q = [[i, a] for i in range(90) for a in range(3)]
+        cs.append({"memo": {"ngood": 2, "nbad": 2, "insts": [{"seed": 1 + i, "argmax": i % 3, "normal": i % 4 != 0} for i in range(90)], "reads": [q, q, q[::-1]]}})
+        cs.append({"memo": {"ngood": 1, "nbad": 3, "insts": [{"seed": 7, "argmax": 1, "normal": True}, {"seed": 8, "argmax": 0, "normal": False}],
+                            "reads": [[[0, 0], [0, 1], [1, 0], [1, 1]], [[1, 1], [0, 0]], [[0, 0], [0, 1], [1, 0], [1, 1]]]}})
         lin = {"kind": "linear", "n": 5, "n_actions": 3, "n_ctx": 2, "n_act": 0, "n_coeff": 2, "rf": ["a", "xa"], "seed": 3}
         lam = {"kind": "lambda", "n": 51, "ctxs": [[1, 2], [3, 4], [0.5, 7]], "acts": [["x", "y", "z"]], "rwds": [[1, 0, 0.5], [0, 1, 0.25]], "seed": None}
         xy = {"kind": "sup_xy", "X": [[1, 2], [3, 4], [5, 6], [7, 8]], "Y": ["a", "b", "a", "c"], "label_type": None}
@@ -1874,9 +2052,45 @@ class C04(Property):
         tags += ["covered:shortcuts:%d" % len([n for n in shortcuts() if n in HANDLED_SHORTCUTS])]
         return {"fails": fails, "nontrivial": True, "tags": tags, "impl": {"seed": seed}}
 
+    def memo_case(self, case, driver):
+        """`Grounded.GroundedFeedback` instances evaluated directly: (B) re-evaluating the pairs of a read gives the words of the
+        first time; (A) the words are the ones the memo model draws (CobaRandom(seed).choice through Model/C05)"""
+        from coba.environments.filters import Grounded
+        quiet()
+        mc = case["memo"]
+        goods = [(g,) for g in range(mc["ngood"])]
+        bads = [(b,) for b in range(mc["ngood"], mc["ngood"] + mc["nbad"])]
+        insts = []
+        for it in mc["insts"]:
+            insts.append(Grounded.GroundedFeedback(goods, bads, it["argmax"], it["seed"]) if it["normal"]
+                         else Grounded.GroundedFeedback(bads, goods, it["argmax"], it["seed"]))
+        real = [[insts[i](a)[0] for i, a in q] for q in mc["reads"]]
+        fails, tags = [], ["memo-case", "memo-evals:%s" % (">256" if max(len(q) for q in mc["reads"]) > 256 else "<=256")]
+        first = {}
+        for r, q in enumerate(mc["reads"]):
+            for (i, a), v in zip(q, real[r]):
+                if first.setdefault((i, a), v) != v:
+                    fails.append(F("B", "GroundedFeedback instance %d evaluated on action %d gave word %d in read %d but %d the first time "
+                                        "(feedbacks of an interaction change between reads)" % (i, a, v, r, first[(i, a)]), "feedback-not-stable"))
+                    break
+            if fails:
+                break
+        model = None
+        if driver is not None:
+            req = {"memo": {"cap": None, "insts": [{"seed": {"int": it["seed"]}, "ngood": mc["ngood"], "nbad": mc["nbad"], "argmax": it["argmax"], "normal": it["normal"]}
+                                                     for it in mc["insts"]], "reads": [[list(p) for p in q] for q in mc["reads"]]}}
+            model = driver.ask(req)["values"]
+            if model != real:
+                fails.append(F("A", "GroundedFeedback words differ from the memo model: real %s, model %s" % (str(real)[:120], str(model)[:120]), "A:memo"))
+            else:
+                tags.append("A:memo-model")
+        return {"fails": fails, "nontrivial": len(mc["reads"]) >= 2, "tags": tags, "impl": {"reads": [r[:8] for r in real]}, "model": model and [r[:8] for r in model]}
+
     def _evaluate(self, case, driver, tmp):
         if "witness" in case:
             return self.witness(case)
+        if "memo" in case:
+            return self.memo_case(case, driver)
         fails = []
         msrc = member_src(case)
         tags = ["src:" + msrc["kind"] + (":" + msrc.get("fmt", msrc.get("via", "")) if msrc["kind"] in ("sup_file", "sup_rows", "result") else "")]
@@ -1915,7 +2129,7 @@ class C04(Property):
         """(A) implementation = model on every observation of the history; (C) model = spec"""
         try:
             quiet()
-            req, I, staged, asis_ok = describe(case, tmp, len(case["hist"]) + 3, info.get("srcpost"))
+            req, I, staged, asis_ok, dinfo = describe(case, tmp, len(case["hist"]) + 3, info.get("srcpost"))
         except BaseException as e:
             if not trappable(e):
                 raise
@@ -1924,20 +2138,33 @@ class C04(Property):
         if staged != I.items(info["ref"]):
             tags.append("A:staged-differs")     # the pipeline is not the composition of its pipes on materialised lists
             return None
-        hist = model_hist(case)
+        nmem = dinfo["members"]
+        hist, where = model_ops(case, nmem)
         ans = driver.ask(dict(req, variant="fixed", hist=hist))
         model = ans["model"]
+        if dinfo["nreal"]:
+            tags.append("A:real-filters:%d" % min(dinfo["nreal"], 4))
+        if nmem > 1:
+            tags.append("A:collection-in-model")
+        den = ans["dens"][member_of(case) if nmem > 1 else 0]
         # (C) run-time sanity of the theorems: when their hypotheses hold the model's reads are the denotation
         if ans["hyp"]:
-            for h, m in zip([h for h in case["hist"] if h["op"] != "sib"], model):
-                if h["op"] == "full" and isinstance(m, dict) and m.get("items") != ans["den"]:
+            for i, h in enumerate(case["hist"]):
+                m = model[where[i]] if not isinstance(where[i], list) else None
+                if h["op"] == "full" and isinstance(m, dict) and m.get("items") != den:
                     fails.append(F("C", "model: a full read differs from the denotation although the hypotheses of `reread` hold", "C:reread"))
-                if h["op"] == "partial" and isinstance(m, dict) and m.get("items") != ans["den"][:len(m.get("items", []))]:
+                if h["op"] == "partial" and isinstance(m, dict) and m.get("items") != den[:len(m.get("items", []))]:
                     fails.append(F("C", "model: an abandoned read is not a prefix of the denotation", "C:reread-prefix"))
             tags.append("hyp:reread")
         else:
             tags.append("hyp:not-good")
-        diffs = compare_model(case, info["outs"], model, I)
+        diffs = compare_model(case, info["outs"], model, where, I)
+        # caller-owned objects: the model's heap cells after the history against the snapshot taken after the real history
+        after = info.get("snap_after") or {}
+        real_cells = [[I.tok("caller", k, after.get(k))] for k in dinfo["caller_keys"]]
+        if ans.get("caller") != real_cells and not diffs:
+            ks = [k for k, a, b in zip(dinfo["caller_keys"], ans.get("caller", []), real_cells) if a != b]
+            diffs.append((len(case["hist"]) - 1, "caller-owned objects %s differ from the model's heap cells after the history" % ks))
         if not diffs:
             tags.append("A:fixed-variant")
             return {"variant": "fixed", "outs": model[:12]}
@@ -1946,7 +2173,7 @@ class C04(Property):
         if asis_ok:
             aans = driver.ask(dict(asis_request(req, case), hist=hist))
             amodel = aans["model"]
-            adiffs = compare_model(case, info["outs"], amodel, I)
+            adiffs = compare_model(case, info["outs"], amodel, where, I)
             if not adiffs:
                 tags.append("A:asis-variant")
                 return {"variant": "asis", "outs": amodel[:12]}
@@ -2009,7 +2236,7 @@ class C04(Property):
 
     # ---- shrinking
     def shrink(self, case):
-        if "witness" in case:
+        if "witness" in case or "memo" in case:
             return
         hist = case["hist"]
         chain = case.get("chain", [])
@@ -2049,6 +2276,8 @@ class C04(Property):
     def snippet(self, case):
         if "witness" in case:
             return "see Props/C04.lean shuffle_abandon_counterexample"
+        if "memo" in case:
+            return "see harness/props/c04.py C04.memo_case (Grounded.GroundedFeedback instances evaluated directly)"
         return ("import sys, json, tempfile; sys.path[:0] = ['/repo', '/verif/harness']\n"
                 "from props import c04\ncase = json.loads(%r)\nc04.quiet(); tmp = tempfile.mkdtemp()\n"
                 "ref, refp = c04.reference(case, tmp)\nouts, before, after = c04.run_history(case, tmp)\n"
